@@ -48,7 +48,7 @@ pub const BELOW_A_SCALAR: [&str; 6] = ["n0.y", "Obj.n.y", "Obj.s.len", "Obj.inne
 pub const STRS: [&str; 10] = [
     "alpha", "beta", "alphabet", "bet", "", "gamma delta", "A", "alpha ", "Alpha", "zeta_9",
 ];
-pub const INTS: [i64; 14] = [-50, -3, -1, 0, 1, 2, 3, 4, 5, 7, 10, 12, 100, 2_147_483_648];
+pub const INTS: [i64; 16] = [-50, -3, -1, 0, 1, 2, 3, 4, 5, 7, 10, 12, 100, 2_147_483_648, 9_007_199_254_740_992, 9_007_199_254_740_993];
 pub const FLOATS: [f64; 13] = [-2.5, -1.0, 0.0, 0.25, 0.5, 1.0, 1.5, 2.0, 3.75, 100.0, 0.1, 0.2, 0.3];
 
 pub fn gen_value(rng: &mut Rng, ty: Ty) -> V {
